@@ -8,10 +8,12 @@ import (
 	"fmt"
 	"math/rand"
 	"path/filepath"
+	"sort"
 	"strings"
 	"time"
 
 	parser "github.com/acekingke/yaccgo/Parser"
+	symbol "github.com/acekingke/yaccgo/Symbol"
 )
 
 type pTok struct {
@@ -59,6 +61,131 @@ type parseObs struct {
 	Toks []pTok `json:"toks"`
 	AST  pAST   `json:"ast"`
 	Src  string `json:"src"`
+	// what the visitors made of the syntax tree (spec/SymTab.tla): the symbols of the grammar handed to the LALR
+	// construction, and per rule its precedence symbol
+	Sym    pSymView `json:"sym"`
+	Sorted []string `json:"sorted"` // every name of the syntax tree, in the order of Go's sort.Strings (TLA+ cannot compare strings)
+}
+type pSym struct {
+	Name  string `json:"name"`
+	Value int    `json:"value"`
+	Tag   string `json:"tag"`
+	NT    bool   `json:"nt"`
+	Level int    `json:"level"` // 0: none
+	Assoc int    `json:"assoc"` // 1 left, 2 right, 3 nonassoc, 0 none
+}
+type pSymRule struct {
+	Lhs  string   `json:"lhs"`
+	Rhs  []string `json:"rhs"`
+	Prec string   `json:"prec"`
+}
+type pSymView struct {
+	Outcome string     `json:"outcome"` // none (no syntax tree) | ok | undef | precundef | other
+	Diag    string     `json:"diag"`
+	Symbols []pSym     `json:"symbols"`
+	Rules   []pSymRule `json:"rules"`
+	Start   string     `json:"start"`
+}
+
+func emptySymView() pSymView {
+	return pSymView{Outcome: "none", Symbols: []pSym{}, Rules: []pSymRule{}}
+}
+
+// symView runs the whole front end + construction on text and projects the grammar's symbols.
+func symView(text string) pSymView {
+	v := emptySymView()
+	resetFlags()
+	w, outcome, diag, _ := buildInProcess(text)
+	v.Diag = diag
+	if len(v.Diag) > 200 {
+		v.Diag = v.Diag[:200]
+	}
+	switch {
+	case outcome == "ok":
+		v.Outcome = "ok"
+	case outcome == "panic" && strings.HasPrefix(diag, "It's not define symbol"):
+		v.Outcome = "undef"
+		return v
+	case outcome == "panic" && strings.HasPrefix(diag, "prec symbol "):
+		v.Outcome = "precundef"
+		return v
+	default:
+		v.Outcome = "other"
+		return v
+	}
+	root := w.VistorNode.(*parser.RootVistor)
+	g := root.LALR1.G
+	for _, sy := range g.Symbols {
+		if sy.ID <= 1 {
+			continue
+		}
+		ps := pSym{Name: sy.Name, Value: sy.Value, Tag: sy.Tag, NT: sy.IsNonTerminator}
+		if sy.Prec > 0 {
+			ps.Level = sy.Prec
+			switch sy.PrecType {
+			case symbol.LEFT:
+				ps.Assoc = 1
+			case symbol.RIGHT:
+				ps.Assoc = 2
+			default:
+				ps.Assoc = 3
+			}
+		}
+		v.Symbols = append(v.Symbols, ps)
+	}
+	for i := 1; i < len(g.ProductoinRules); i++ {
+		pr := g.ProductoinRules[i]
+		r := pSymRule{Lhs: pr.LeftPart.Name, Rhs: []string{}}
+		for _, x := range pr.RighPart {
+			r.Rhs = append(r.Rhs, x.Name)
+		}
+		if pr.PrecSymbol != nil {
+			r.Prec = pr.PrecSymbol.Name
+		}
+		v.Rules = append(v.Rules, r)
+	}
+	if len(g.ProductoinRules) > 0 && len(g.ProductoinRules[0].RighPart) == 1 && g.ProductoinRules[0].RighPart[0] != nil {
+		v.Start = g.ProductoinRules[0].RighPart[0].Name
+	}
+	return v
+}
+
+func astNames(a pAST) []string {
+	seen := map[string]bool{}
+	add := func(s string) {
+		if s != "" {
+			seen[s] = true
+		}
+	}
+	for _, l := range a.TokenDefs {
+		for _, id := range l {
+			add(id.Name)
+		}
+	}
+	for _, l := range a.PrecDefs {
+		for _, pd := range l {
+			add(pd.Name)
+		}
+	}
+	for _, t := range a.TypeDefs {
+		add(t.Name)
+	}
+	add(a.Start)
+	for _, r := range a.Rules {
+		add(r.Left)
+		add(r.Prec)
+		for _, e := range r.Right {
+			if e.T == 1 {
+				add(e.E)
+			}
+		}
+	}
+	res := []string{}
+	for k := range seen {
+		res = append(res, k)
+	}
+	sort.Strings(res)
+	return res
 }
 
 func emptyAST() pAST {
@@ -166,6 +293,11 @@ func cmdParseObs(args []string) {
 			return
 		}
 		o.AST = ast
+		o.Sym, o.Sorted = emptySymView(), []string{}
+		if ast.OK {
+			o.Sym = symView(text)
+			o.Sorted = astNames(ast)
+		}
 		obs[n%*shards] = append(obs[n%*shards], o)
 		n++
 	}
